@@ -294,6 +294,10 @@ func (c *e2eCtx) patchRound(s *scenario, r *rand.Rand, rd int, dv *patchDirectiv
 		nd = flipDeletes(edited, files, r, 0, true)
 	default:
 		nd = flipDeletes(edited, files, r, r.Intn(6), false)
+		// every block of the file that talks about "goat.yaml" (its tracking import must go with them)
+		if _, ok := edited["pkg/l0/zz_cfgdoc.go"]; ok && r.Intn(2) == 0 {
+			nd += flipDeletes(edited, []string{"pkg/l0/zz_cfgdoc.go"}, r, 0, true)
+		}
 		ni = addInserts(edited, files, r, r.Intn(5))
 	}
 	c.count(fmt.Sprintf("round-mode:%d", mode))
